@@ -17,6 +17,7 @@ package telem
 //@ pure func (tr TimeRange) ContainsStamp(stamp TimeStamp) bool
 //@ pure func (tr TimeRange) ContainsRange(rng TimeRange) bool
 //@ pure func (tr TimeRange) BoundBy(bound TimeRange) TimeRange
+//@ pure func (tr TimeRange) Union(other TimeRange) TimeRange
 
 //@ spec func SpecNonneg(tr TimeRange) bool = tr.Start >= 0 && tr.End >= 0
 
